@@ -225,3 +225,118 @@ def c11_history(reruns, propagate, fail_first):
                 return "submission %d returned %r" % (k, outs[k])
             done = True
     return None
+
+
+# ------------------------------------------------------------------ C35
+class Fault(Exception):
+    """ordinary exception injected by the harness"""
+
+
+SITES = ["none", "hook_pre_run", "hook_pre_run_task", "hook_post_run_task", "hook_post_run", "save_job_record",
+         "save_result", "record_error", "start_audit", "outputs_from_job"]
+
+
+def c35(site, body_fails, pre_exists, x):
+    """one Job run with an exception injected at `site`; returns error text or None"""
+    from pydra.engine.hooks import TaskHooks
+    from pydra.engine.submitter import Submitter
+    from pydra.engine.audit import Audit
+    E.reset()
+    R.clear()
+    name = SITES[site]
+    calls = {"pre_run": 0, "pre_run_task": 0, "post_run_task": 0, "post_run": 0, "save": 0}
+
+    def hook(nm):
+        def f(*a, **k):
+            calls[nm] += 1
+            if name == "hook_" + nm:
+                raise Fault(nm)
+        return f
+
+    hooks = TaskHooks(pre_run=hook("pre_run"), pre_run_task=hook("pre_run_task"), post_run_task=hook("post_run_task"), post_run=hook("post_run"))
+    real_save, real_rec, real_start = J.save, J.record_error, Audit.start_audit
+    from pydra.compose.python import PythonOutputs
+    real_from = PythonOutputs._from_job.__func__
+
+    def save(*a, **k):
+        calls["save"] += 1
+        is_result = k.get("result") is not None
+        if (name == "save_job_record" and not is_result) or (name == "save_result" and is_result):
+            raise Fault(name)
+        return real_save(*a, **k)
+
+    reached = {"n": 0}
+
+    def rec(*a, **k):
+        if name == "record_error":
+            reached["n"] += 1
+            raise Fault(name)
+        return real_rec(*a, **k)
+
+    def start(self, odir):
+        real_start(self, odir)
+        if name == "start_audit":
+            raise Fault(name)
+
+    def from_job(cls, job):
+        if name == "outputs_from_job":
+            raise Fault(name)
+        return real_from(cls, job)
+
+    d = E.scratch()
+    cwd0 = os.getcwd()
+    R.FLAGS["fail"] = False
+    raised = None
+    try:
+        t = D.Flaky(x=x, tag=5)
+        if pre_exists:
+            t(cache_root=d, worker="debug")
+            R.clear()
+        R.FLAGS["fail"] = bool(body_fails)
+        J.save, J.record_error, Audit.start_audit = save, rec, start
+        PythonOutputs._from_job = classmethod(from_job)
+        try:
+            with Submitter(cache_root=d, worker="debug") as sub:
+                sub(D.Flaky(x=x, tag=5), hooks=hooks)
+        except Exception as e:
+            raised = e
+        finally:
+            J.save, J.record_error, Audit.start_audit = real_save, real_rec, real_start
+            PythonOutputs._from_job = classmethod(real_from)
+            R.FLAGS["fail"] = False
+        cwd1 = os.getcwd()
+        os.chdir(cwd0)
+        left = sorted(f for f in os.listdir(d) if f.endswith("_info.json"))
+        locks = sorted(f for f in os.listdir(d) if f.endswith(".lock"))
+        jd = os.path.join(d, t._checksum)
+        has_job = os.path.exists(os.path.join(jd, "_job.pklz"))
+        has_res = os.path.exists(os.path.join(jd, "_result.pklz"))
+    finally:
+        os.chdir(cwd0)
+        E.cleanup(d)
+    T.reach()
+    n_body = len(bodies("Flaky"))
+    desc = "fault at %s, body_fails=%s, result pre-exists=%s" % (name, body_fails, pre_exists)
+    if cwd1 != cwd0:
+        return "%s: working directory left at %s" % (desc, cwd1)
+    if left:
+        return "%s: bookkeeping file(s) left in the cache root: %s" % (desc, left)
+    if locks:
+        return "%s: lock file(s) left: %s" % (desc, locks)
+    if pre_exists and name in ("none", "hook_post_run"):
+        if n_body or calls["pre_run_task"] or calls["post_run_task"]:
+            return "%s: cache hit but body=%d pre_run_task=%d post_run_task=%d" % (desc, n_body, calls["pre_run_task"], calls["post_run_task"])
+    if n_body:
+        if calls["pre_run_task"] != n_body or calls["post_run_task"] != n_body:
+            return "%s: body executed %d time(s) but pre_run_task=%d post_run_task=%d" % (desc, n_body, calls["pre_run_task"], calls["post_run_task"])
+        if name not in ("save_job_record", "save_result") and not (has_job and has_res):
+            return "%s: body executed but job directory holds record=%s result=%s" % (desc, has_job, has_res)
+    else:
+        if calls["post_run_task"] > calls["pre_run_task"]:
+            return "%s: post_run_task called without a start" % desc
+    if name == "none" and not body_fails and raised is not None:
+        return "%s: raised %r" % (desc, raised)
+    site_reached = name not in ("record_error",) or reached["n"] > 0
+    if site_reached and not pre_exists and raised is None and name != "none":
+        return "%s: exception swallowed, submission reported success" % desc
+    return None
